@@ -131,6 +131,10 @@ func consume(log *joinLog, t0 time.Time, out <-chan []int, js joinScenario, rele
 					break
 				}
 			}
+			// no further output is produced before the release signal: nothing may be waiting in the output channel now
+			if len(out) > 0 {
+				log.flag("nocopy-output-before-release")
+			}
 			if !release() {
 				return
 			}
